@@ -14,6 +14,7 @@ const (
 	ErrCouldNotParseAs           = "could not parse '%s' as '%s'"
 	ErrNoPrefixParseFunc         = "no prefix parse function for '%s'"
 	ErrIllegalToken              = "illegal token '%s' found"
+	ErrUnexpectedEOF             = "unexpected end of the template inside of '{{ }}', directive's parentheses, a string or a comment"
 	ErrElseifCannotFollowElse    = "'@elseif' directive cannot follow '@else'"
 	ErrExpectedIdentifier        = "expected identifier, got '%s' instead"
 	ErrExceptedComponentStmt     = "expected *ComponentStmt, got %T"
